@@ -44,3 +44,14 @@ fn widest_field() {
     println!("W {}", q(&db, "SELECT a, b, count(1) FROM t"));
     println!("W2 {}", q(&db, "SELECT b, a, count(1) FROM t"));
 }
+
+#[test]
+fn full_range() {
+    let db = mem();
+    let lo = i64::MIN + 10; let hi = i64::MAX - 10;
+    block_on(db.ingest_efficient(eb("t", vec![("a", ColumnData::I64(vec![lo, hi, 5, hi, 5])), ("b", ColumnData::I64(vec![0, 0, 1, 1, 1]))])));
+    db.force_flush();
+    println!("F {}", q(&db, "SELECT a, b, count(1) FROM t"));
+    println!("F2 {}", q(&db, "SELECT b, a, count(1) FROM t"));
+    println!("F3 {}", q(&db, "SELECT a, count(1) FROM t"));
+}
